@@ -672,6 +672,12 @@ pub fn b_wit_len_consistent(s: &mut Scen, r: &mut Rng) -> bool {
     s.utxo[p].out = c_array(&[na, it[1].clone()]); true
 }
 
+/// Shelley-MA, rule level: large deposit counters for check_preservation_of_value
+pub fn sh_counts(s: &mut Scen, r: &mut Rng) -> bool {
+    if !matches!(s.fam, Fam::AC(Era::Shelley) | Fam::AC(Era::Allegra) | Fam::AC(Era::Mary)) { return false }
+    let e = |r: &mut Rng| match r.below(4) { 0 => 0, 1 => r.below(5), 2 => 1u64 << r.range(20, 63), _ => edge_amount(r) };
+    s.counts = Some((e(r), e(r), e(r))); true
+}
 pub fn all_mutators() -> Vec<(&'static str, Mutator)> {
     vec![
         ("ins_empty", ins_empty as Mutator), ("ins_add_missing", ins_add_missing), ("ins_add_present", ins_add_present),
@@ -692,6 +698,6 @@ pub fn all_mutators() -> Vec<(&'static str, Mutator)> {
         ("slot_edge", slot_edge), ("env_netid", env_netid), ("env_magic", env_magic), ("env_acnt", env_acnt), ("pp_edge", pp_edge),
         ("b_ins_empty", b_ins_empty), ("b_outs_empty", b_outs_empty), ("b_out_amount", b_out_amount), ("b_out_add", b_out_add),
         ("b_utxo_amount", b_utxo_amount), ("b_utxo_remove", b_utxo_remove), ("b_in_add", b_in_add), ("b_utxo_addr", b_utxo_addr),
-        ("asset_pair_overflow", asset_pair_overflow), ("b_wit_len_consistent", b_wit_len_consistent), ("b_wit_len", b_wit_len), ("b_wit_flip", b_wit_flip), ("b_wit_remove", b_wit_remove), ("b_wit_swap_kind", b_wit_swap_kind),
+        ("asset_pair_overflow", asset_pair_overflow), ("sh_counts", sh_counts), ("b_wit_len_consistent", b_wit_len_consistent), ("b_wit_len", b_wit_len), ("b_wit_flip", b_wit_flip), ("b_wit_remove", b_wit_remove), ("b_wit_swap_kind", b_wit_swap_kind),
     ]
 }
